@@ -271,6 +271,31 @@ theorem never_across_namespaces (w : World) (hw : WorldOK w) (p : Proxy) (hp : P
     obtain ⟨l, hl, hmem⟩ := hgw.2
     exact absurd hmem (hnoref l hl)
 
+/-- **unauthorised_gets_no_key.** The "CA only, no RBAC needed" shortcut is decided on the *parsed* name, the same
+    field `generate` reads: a proxy whose `(serviceAccount, namespace)` its cluster does not authorise never receives
+    a private key under a `kubernetes://` name - whatever the requested string looks like (extra path segments, a
+    `-cacert` suffix on the last segment of `ResourceName` only, ...). -/
+theorem unauthorised_gets_no_key (w : World) (hw : WorldOK w) (p : Proxy) (hp : ProxyOK p) (c : Cache)
+    (hc : Consistent w c) (names : List Str) (req : Option PushReq) (o : GenOut)
+    (h : generate w c p names req = some o) (id : Identity) (hid : p.verified = some id)
+    (hdenied : ∀ pc, findCluster p.cluster w.clusters = some pc → pc.authz id.sa id.ns = false)
+    (name : Str) (v : Val) (hm : (name, v) ∈ o.res) (hnoref : ∀ l, p.refs = some l → name ∉ l) :
+    v.hasKey = false := by
+  cases hk : v.hasKey with
+  | false => rfl
+  | true =>
+    obtain ⟨id', sr, pc, hv, _, _, hpc, hcase, _⟩ := sds_release_sound w hw p hp c hc names req o h name v hm hk
+    rw [hid] at hv
+    cases hv
+    cases hcase with
+    | inl hkube =>
+      have := hdenied pc hpc
+      rw [hkube.2.2] at this
+      cases this
+    | inr hgw =>
+      obtain ⟨l, hl, hmem⟩ := hgw.2
+      exact absurd hmem (hnoref l hl)
+
 /-! ### Authorisation precedes every cache lookup (no assumption on the cache) -/
 
 /-- **cache_lookup_only_authorised.** For an arbitrary cache state: every returned element is tied to a requested
@@ -436,5 +461,17 @@ example : runOps exWorld [] [.gen exP1 exNames exForced, .gen exP2 exNames exFor
       none, none,
       some [("kubernetes://a".toList, .tls "C2".toList "K2".toList),
             ("kubernetes://ns2/a-cacert".toList, .ca "R2".toList)] ] := by decide
+
+/-- `-cacert` on a later path segment does not make a request CA-only: for the unauthorised `exP3` (ns2, sa2) the
+    names `kubernetes://ns2/a/x-cacert` (and the variant whose third segment is just the suffix) resolve to the full
+    secret `a` and are refused; only names whose *parsed* name ends in `-cacert` yield the CA. The authorised `exP2` gets the key pair. -/
+example : runOps exWorld []
+      [.gen exP3 ["kubernetes://ns2/a/x-cacert".toList, "kubernetes://ns2/a/-cacert".toList,
+                  "kubernetes://ns2/a-cacert/x".toList] exForced,
+       .gen exP2 ["kubernetes://ns2/a/x-cacert".toList] exForced,
+       .gen exP3 ["kubernetes://ns2/a/x-cacert".toList] exForced] =
+    [ some [("kubernetes://ns2/a-cacert/x".toList, .ca "R2".toList)],
+      some [("kubernetes://ns2/a/x-cacert".toList, .tls "C2".toList "K2".toList)],
+      some [] ] := by decide
 
 end IstioModel.C11
